@@ -220,6 +220,10 @@ def gen_history(rng, k):
     pat = impl.pattern_params(rng, rmax=5.0)
     c = int(np.ceil(pat["search"]))
     shape = (int(rng.integers(2 * c + 2, 60)), int(rng.integers(2 * c + 2, 60)))
+    if k % 5 == 3:   # a frame narrower than the correlation window along one or both axes (windows stick out at both ends)
+        shape = (int(rng.integers(3, 2 * c)), shape[1]) if k % 2 else (shape[0], int(rng.integers(3, 2 * c)))
+        if k % 15 == 3:
+            shape = (int(rng.integers(3, 2 * c)), int(rng.integers(3, 2 * c)))
     ncalls = int(rng.integers(1, 7))
     peaks = []
     for _ in range(ncalls):
